@@ -269,10 +269,12 @@ func (x *Explorer) answerFor(q *gw.Req) gw.Action {
 			x.Truth[key] = old[key]
 			if cur.IsModel {
 				a.Text = x.R.Pick(`{"result":{"model":{"k3":424250,"k0":[1]}}}`, `{"result":{"events":[{"event":"change","data":{"values":{"k3":424251,"k0":{"rid":""}}}}]}}`,
-					`{"result":{"collection":[1,2]}}`, `{"result":{"model":{"k2":424252,"k1":{"action":"nuke"}}}}`)
+					`{"result":{"collection":[1,2]}}`, `{"result":{"model":{"k2":424252,"k1":{"action":"nuke"}}}}`,
+					`{"result":{"events":[null]}}`, `{"result":{"events":[7]}}`, `{"result":{"events":"x"}}`, `{"result":{"events":[null,null]}}`)
 			} else {
 				a.Text = x.R.Pick(`{"result":{"collection":[424253,{"action":"delete"}]}}`, `{"result":{"collection":[424254,[1]]}}`, `{"result":{"model":{"k0":1}}}`,
-					`{"result":{"events":[{"event":"add","data":{"idx":0,"value":{"rid":""}}}]}}`)
+					`{"result":{"events":[{"event":"add","data":{"idx":0,"value":{"rid":""}}}]}}`, `{"result":{"events":[null]}}`, `{"result":{"events":[7]}}`,
+					`{"result":{"events":{}}}`)
 			}
 			a.Abs = "err\tmalformed"
 		case !cur.IsModel:
